@@ -4,6 +4,7 @@ import (
 	"bytes"
 	"fmt"
 	"sort"
+	"strings"
 )
 
 // Alignable is an interface that should implements Align() and String()  method
@@ -26,7 +27,13 @@ func (l Line) String() string {
 
 	buf.Reset()
 	buf.WriteString(l.Leading)
-	buf.WriteString(l.Buffer)
+	if l.Trailing == "" {
+		// Alignment padding is only for a trailing comment, otherwise it would be
+		// trailing white spaces whose width changes on the next formatting
+		buf.WriteString(strings.TrimRight(l.Buffer, " "))
+	} else {
+		buf.WriteString(l.Buffer)
+	}
 	buf.WriteString(l.Trailing)
 
 	return buf.String()
